@@ -1418,10 +1418,18 @@ impl<Target: Composer> AdditionalBuilder<Target> {
             &mut OptBuilder<'_, Target>,
         ) -> Result<(), Target::AppendError>,
     {
-        self.authority.answer.builder.push(
+        // The closure may set the lower bits of the extended rcode in the
+        // message header. If the push fails, the OPT record is dropped again
+        // and the header has to be as it was, too.
+        let rcode = self.header().rcode();
+        let res = self.authority.answer.builder.push(
             |target| OptBuilder::new(target)?.build(op),
             |counts| counts.inc_arcount(),
-        )
+        );
+        if res.is_err() {
+            self.header_mut().set_rcode(rcode);
+        }
+        res
     }
 }
 
